@@ -25,10 +25,10 @@ var IDs = []string{"x", "y", "z"}
 
 // GenOpts steers the configuration generator.
 type GenOpts struct {
-	MaxCtrls, MaxQ int
-	CachedProb     float64
+	MaxCtrls, MaxQ    int
+	CachedProb        float64
 	AllowFilterShadow bool // allow a DestroyReady input next to another input of the same kind in one controller
-	NoLate         bool
+	NoLate            bool
 }
 
 // GenCfg draws a runtime configuration.
